@@ -31,6 +31,7 @@ PROP_MODULES = {
     "C06": ["contracts.c06"],
     "C01": ["contracts.c01"],
     "C15": ["contracts.c15"],
+    "C14": ["contracts.c14"],
     "C03": ["contracts.c03"],
     "C18": ["contracts.c18"],
 }
